@@ -8,8 +8,11 @@ R08a  the comparator touches its arguments only through comparisons, so its resu
       then negative numbers; antisymmetry everywhere.  Ties on number and title are
       skipped, as in the property.
 R08b  the sort that produces the final order uses that comparator, after the merge
-Link-file parsing, merge, .cap, Host=+ and abstracts have no structural proxy and are
-not decided.
+R08c  MergeLinkFiles, per path of its loop: add / merge / hide as documented (see merge_obligations)
+R08d  mergeentries overrides only the fields a block sets
+R08e  .cap files: Type=X or - hides, anything else overrides; unreadable .cap files are ignored
+R08f  Host=+ / Port=+ leave the field unset, which every renderer reads as "this server"
+The text of link files (line syntax, Path= forms, abstracts with continuation lines) is not decided.
 """
 
 from __future__ import annotations
@@ -42,6 +45,10 @@ def check(ctx, rep):
     prog = ctx.prog
     rep.rule("R08a", "entrycmp evaluated on every order type of (num1, num2, 0) x (name1 ? name2): documented bucket order and antisymmetry", floor=40)
     rep.rule("R08b", "the final sort uses entrycmp, after link files were merged", floor=1)
+    rep.rule("R08c", "MergeLinkFiles: non-merging / unmatched blocks are appended once; Type=X removes the walked entry (idempotently); other blocks merge into it; index not shrunk; nothing dropped by selector text", floor=1)
+    rep.rule("R08d", "mergeentries overrides exactly the fields the block sets (not-None guard per field) and carries extended attributes", floor=1)
+    rep.rule("R08e", ".cap files: Type=X or - hides the file, anything else is merged and the file listed once; unreadable .cap ignored", floor=1)
+    rep.rule("R08f", "Host=+ / Port=+ leave host/port unset (this server)", floor=2)
     umn = ctx.cls("handlers.UMN.UMNDirHandler")
     ec = prog.resolve_method(umn, "entrycmp") if umn else None
     if ec is None:
@@ -136,3 +143,269 @@ def check(ctx, rep):
         if not ok_any:
             problems.append("prepare() never merges/sorts")
     rep.add("R08b", "final order = entrycmp after the merge", not problems, ctx.where(prep) if prep else "", "; ".join(sorted(set(problems))), key="R08b|sort")
+    merge_obligations(ctx, rep, umn)
+
+
+# ---------------------------------------------------------------------------- R08c-R08f
+def _is_lookup(expr, dname, lvar, defs=None):
+    """D[L.selector] / D.get(L.selector) (possibly through a local)."""
+    e = expr
+    for _ in range(3):
+        if isinstance(e, ast.Name) and defs and e.id in defs:
+            e = defs[e.id]
+    if isinstance(e, ast.Subscript) and norm(e.value) == dname and norm(e.slice) == f"{lvar}.selector":
+        return True
+    if isinstance(e, ast.Call) and isinstance(e.func, ast.Attribute) and e.func.attr == "get" and norm(e.func.value) == dname \
+            and e.args and norm(e.args[0]) == f"{lvar}.selector":
+        return True
+    return False
+
+
+def merge_obligations(ctx, rep, umn, rule_c="R08c", only_merge=False):
+    """MergeLinkFiles, per path of the loop over the link entries: a block that does not ask to be merged, or
+    names no walked file, is appended (once); Type=X on a walked file removes that file's entry (tolerating
+    that it is already gone) and adds nothing; any other block for a walked file is merged into its entry and
+    adds nothing.  The selector index covers every walked entry and is not shrunk while blocks are processed,
+    and entries are never dropped by comparing selector text."""
+    prog = ctx.prog
+    from ..paths import State
+    from ..structure import enclosing_tries, catches
+
+    ml = prog.resolve_method(umn, "MergeLinkFiles")
+    if ml is None:
+        rep.fail(rule_c, "UMNDirHandler.MergeLinkFiles", detail="link-file merge not found")
+        return
+    rep.analysed(ml.qualname)
+    problems = set()
+    # the index
+    dname = None
+    for n in ast.walk(ml.node):
+        if isinstance(n, ast.Assign) and len(n.targets) == 1 and isinstance(n.targets[0], ast.Name):
+            if isinstance(n.value, ast.Dict) and not n.value.keys:
+                for f in ast.walk(ml.node):
+                    if isinstance(f, ast.For) and norm(f.iter) == "self.fileentries":
+                        var = norm(f.target)
+                        for a in ast.walk(f):
+                            if isinstance(a, ast.Assign) and isinstance(a.targets[0], ast.Subscript) and norm(a.targets[0].value) == n.targets[0].id \
+                                    and norm(a.targets[0].slice) == f"{var}.selector" and norm(a.value) == var:
+                                dname = n.targets[0].id
+            elif isinstance(n.value, ast.DictComp) and len(n.value.generators) == 1 and not n.value.generators[0].ifs \
+                    and norm(n.value.generators[0].iter) == "self.fileentries":
+                var = norm(n.value.generators[0].target)
+                if norm(n.value.key) == f"{var}.selector" and norm(n.value.value) == var:
+                    dname = n.targets[0].id
+    loops = [n for n in ast.walk(ml.node) if isinstance(n, ast.For) and norm(n.iter) == "self.linkentries"]
+    if dname is None:
+        problems.add("no index of the walked entries by selector (built from all of self.fileentries)")
+    if len(loops) != 1:
+        problems.add(f"{len(loops)} loops over the link entries (expected one)")
+    n_paths = 0
+    for loop in loops:
+        lvar = norm(loop.target)
+        w = Walker(prog, ctx.resolver, merge_loops=True)
+        w.frame = (ml, umn)
+        w._budget = 100000
+        for kind, val, st in w.exec_block(loop.body, State()):
+            if kind == "raise":
+                continue
+            n_paths += 1
+            needs = indict = isx = None
+            still_listed = False
+            for e in st.events:
+                if e.kind != "test" or e.extra is None:
+                    continue
+                t = norm(e.node)
+                n = e.node
+                if t == f"{lvar}.getneedsmerge()" or t == f"{lvar}.needsmerge":
+                    needs = bool(e.extra)
+                elif isinstance(n, ast.Compare) and len(n.ops) == 1 and norm(n.left) == f"{lvar}.selector" and dname and norm(n.comparators[0]) == dname:
+                    indict = bool(e.extra) if isinstance(n.ops[0], ast.In) else (not bool(e.extra) if isinstance(n.ops[0], ast.NotIn) else indict)
+                elif isinstance(n, ast.Compare) and len(n.ops) == 1 and isinstance(n.comparators[0], ast.Constant) and n.comparators[0].value == "X" \
+                        and "gettype" in norm(n.left) or (isinstance(n, ast.Compare) and norm(n.left).endswith(".type") and isinstance(n.comparators[0], ast.Constant) and n.comparators[0].value == "X"):
+                    isx = bool(e.extra) if isinstance(n.ops[0], ast.Eq) else (not bool(e.extra) if isinstance(n.ops[0], ast.NotEq) else isx)
+                elif isinstance(n, ast.Compare) and len(n.ops) == 1 and isinstance(n.ops[0], ast.In) and norm(n.comparators[0]) == "self.fileentries" and e.extra:
+                    still_listed = True
+            appends = [e for e in st.events if e.kind == "call" and isinstance(e.node.func, ast.Attribute) and e.node.func.attr in ("append", "insert", "extend")
+                       and norm(e.node.func.value) == "self.fileentries"]
+            removes = [e for e in st.events if e.kind == "call" and isinstance(e.node.func, ast.Attribute) and e.node.func.attr in ("remove", "pop")
+                       and norm(e.node.func.value) == "self.fileentries"]
+            merges = [e for e in st.events if e.kind == "call" and isinstance(e.node.func, ast.Attribute) and e.node.func.attr == "mergeentries"]
+            shrinks = [e for e in st.events if dname and e.kind == "call" and isinstance(e.node.func, ast.Attribute)
+                       and e.node.func.attr in ("pop", "popitem", "clear") and norm(e.node.func.value) == dname]
+            for x in ast.walk(ast.Module(body=loop.body, type_ignores=[])):
+                if dname and isinstance(x, ast.Delete) and any(isinstance(t, ast.Subscript) and norm(t.value) == dname for t in x.targets):
+                    problems.add("the selector index is shrunk while link blocks are still being processed: a later block for a hidden file is taken for a new entry and the file shows up again")
+            if shrinks:
+                problems.add("the selector index is shrunk while link blocks are still being processed: a later block for a hidden file is taken for a new entry and the file shows up again")
+            where = f"[needsmerge={needs}, names a walked file={indict}, Type=X={isx}]"
+            if needs is False or (needs is True and indict is False):
+                if len(appends) != 1 or not (appends[0].node.args and norm(appends[0].node.args[-1]) == lvar) or removes or merges:
+                    problems.add(f"{where}: a block that adds a new entry must be appended once and touch nothing else "
+                                 f"(appends={len(appends)}, removals={len(removes)}, merges={len(merges)})")
+            elif needs is True and indict is True and isx is True:
+                if appends or merges:
+                    problems.add(f"{where}: hiding a file must not add or merge anything")
+                for r in removes:
+                    if not (r.node.args and _is_lookup(r.node.args[0], dname, lvar, r.defs)):
+                        problems.add(f"{where}: `{norm(r.node)[:50]}` does not remove the walked file's own entry")
+                    guarded = still_listed or any(catches(h, "ValueError") for tr in enclosing_tries(ml.node, r.node) for h in tr.handlers)
+                    if not guarded:
+                        problems.add(f"{where}: `{norm(r.node)[:50]}` raises ValueError when another block has hidden the same file already "
+                                     "(the directory request is then left unanswered)")
+                if not removes and still_listed:
+                    problems.add(f"{where}: the entry is still listed but not removed")
+            elif needs is True and indict is True and isx is False:
+                if appends or removes or len(merges) != 1:
+                    problems.add(f"{where}: a block for a walked file must be merged into its entry exactly once and add nothing "
+                                 f"(appends={len(appends)}, removals={len(removes)}, merges={len(merges)})")
+                for m in merges:
+                    a = m.node.args
+                    if not (len(a) == 2 and _is_lookup(a[0], dname, lvar, m.defs) and norm(a[1]) == lvar):
+                        problems.add(f"{where}: `{norm(m.node)[:60]}` does not merge the block into the walked file's entry")
+            else:
+                if appends or removes or merges:
+                    problems.add(f"{where}: the list is changed on a path that has not decided whether the block merges, names a walked file and hides it")
+    if loops and not n_paths:
+        problems.add("no path through the merge loop")
+    # nothing is dropped by selector text
+    for n in ast.walk(ml.node):
+        if isinstance(n, ast.Assign) and any(norm(t) == "self.fileentries" or norm(t) == "self.fileentries[:]" for t in n.targets):
+            if any(isinstance(x, ast.Attribute) and x.attr in ("selector", "getselector") for x in ast.walk(n.value)):
+                problems.add("entries are dropped by comparing selector text: link entries that were added under a hidden file's selector disappear with it")
+    rep.add(rule_c, f"{ml.qualname}: add / merge / hide per block", not problems, ctx.where(ml), "; ".join(sorted(problems)[:4]),
+            key=f"{rule_c}|merge|" + ";".join(sorted(p.split(":")[0] for p in problems))[:120])
+    if only_merge:
+        return
+
+    # ------------------------------------------------------------------ R08d  only set fields override
+    me = prog.resolve_method(umn, "mergeentries")
+    if me is None:
+        rep.fail("R08d", "UMNDirHandler.mergeentries", detail="field merge not found")
+    else:
+        old, new = (me.params + ["old", "new"])[1:3]
+        problems = []
+        setattrs = [n for n in ast.walk(me.node) if isinstance(n, ast.Call) and dotted(n.func) == "setattr" and n.args and norm(n.args[0]) == old]
+        direct = [n for n in ast.walk(me.node) if isinstance(n, ast.Assign) and any(isinstance(t, ast.Attribute) and norm(t.value) == old for t in n.targets)]
+        if not setattrs and not direct:
+            problems.append("no field of the walked entry is overridden")
+        pm = {}
+        for p_ in ast.walk(me.node):
+            for c in ast.iter_child_nodes(p_):
+                pm[c] = p_
+        for s_ in setattrs:
+            fld = norm(s_.args[1]) if len(s_.args) > 1 else "?"
+            cur, guarded = pm.get(s_), False
+            while cur is not None and cur is not me.node:
+                if isinstance(cur, ast.If):
+                    t = cur.test
+                    if isinstance(t, ast.Compare) and len(t.ops) == 1 and isinstance(t.ops[0], ast.IsNot) and isinstance(t.comparators[0], ast.Constant) \
+                            and t.comparators[0].value is None and norm(t.left) == f"getattr({new}, {fld})":
+                        guarded = True
+                cur = pm.get(cur)
+            if not guarded:
+                problems.append(f"`{norm(s_)[:50]}` overrides a field the block did not set (no `getattr({new}, {fld}) is not None` guard)")
+            if not (len(s_.args) == 3 and norm(s_.args[2]) == f"getattr({new}, {fld})"):
+                problems.append(f"`{norm(s_)[:50]}` does not copy the block's own value")
+        fields = set()
+        for n in ast.walk(me.node):
+            if isinstance(n, ast.For) and isinstance(n.iter, (ast.List, ast.Tuple)):
+                fields |= {e.value for e in n.iter.elts if isinstance(e, ast.Constant)}
+        missing = {"selector", "type", "name", "host", "port", "num"} - fields
+        if setattrs and missing:
+            problems.append(f"fields {sorted(missing)} set by a block are not carried over")
+        eas = [n for n in ast.walk(me.node) if isinstance(n, ast.Call) and isinstance(n.func, ast.Attribute) and n.func.attr == "setea" and norm(n.func.value) == old]
+        if not eas:
+            problems.append("extended attributes (abstracts) of the block are not carried over")
+        rep.add("R08d", f"{me.qualname}: only fields the block sets override", not problems, ctx.where(me), "; ".join(problems), key="R08d|mergeentries")
+
+    # ------------------------------------------------------------------ R08e  .cap: X / - hide, otherwise merge then list
+    pa = umn.methods.get("prep_entriesappend")
+    if pa is None:
+        rep.fail("R08e", "UMNDirHandler.prep_entriesappend", detail=".cap processing not found")
+    else:
+        def rp(call, target):
+            return ["OSError"] if isinstance(call.func, ast.Attribute) and call.func.attr == "processLinkFile" else []
+
+        from ..facts import expand_ast as _xa
+
+        def _from_capfile(node, st):
+            """Is `node` (a local or expression) derived from what processLinkFile() returned?"""
+            try:
+                e = _xa(node, None, st.defs) if st.defs else node
+            except Exception:
+                e = node
+            return "processLinkFile(" in norm(e)
+
+        def cv(hide):
+            def f(call, target, st):
+                if isinstance(call.func, ast.Attribute) and call.func.attr == "gettype" and not call.args and _from_capfile(call.func.value, st):
+                    return Const(hide)
+                return None
+            return f
+
+        problems = set()
+        for label, tval in (("X", "X"), ("-", "-"), ("other", "1")):
+            w = Walker(prog, ctx.resolver, raise_points=rp, call_value=cv(tval),
+                       inline=lambda fn, t, d: d < 2 and t.bound_cls is not None and fn.cls is umn
+                       and fn.name not in ("processLinkFile", "mergeentries", "prep_entriesappend", "getLinkItem"))
+            for p in w.run(pa, umn):
+                if p.kind == "raise":
+                    problems.add(f"an exception ({p.value}) escapes .cap processing and takes the listing down")
+                    continue
+                sup = [e for e in p.events if e.kind == "call" and isinstance(e.node.func, ast.Attribute) and e.node.func.attr == "prep_entriesappend"]
+                mg = [e for e in p.events if e.kind == "call" and isinstance(e.node.func, ast.Attribute) and e.node.func.attr == "mergeentries"]
+                failed = any(e.kind == "raise" for e in p.events)
+                have = [e for e in p.events if e.kind == "test" and e.extra is not None
+                        and "processLinkFile(" in norm(_xa(e.node, None, e.defs) if e.defs else e.node) and "gettype" not in norm(e.node)]
+                has_block = any(bool(e.extra) for e in have) if have else None
+                if failed or has_block is False:
+                    if len(sup) != 1:
+                        problems.add("a file without a (readable, non-empty) .cap file is not listed exactly once")
+                    continue
+                if label in ("X", "-"):
+                    if sup:
+                        problems.add(f"a .cap file with Type={label} does not hide the file")
+                else:
+                    if len(sup) != 1:
+                        problems.add("a file with an ordinary .cap file is not listed exactly once")
+                    if len(mg) != 1:
+                        problems.add("an ordinary .cap file is not merged into the file's entry")
+        rep.add("R08e", f"{pa.qualname}: .cap Type=X/- hides, anything else overrides and lists", not problems, ctx.where(pa), "; ".join(sorted(problems)),
+                key="R08e|cap")
+
+    # ------------------------------------------------------------------ R08f  Host=+ / Port=+ leave the field unset (= this server)
+    gl = prog.resolve_method(umn, "getLinkItem")
+    if gl is None:
+        rep.fail("R08f", "UMNDirHandler.getLinkItem", detail="link-file parser not found")
+    else:
+        pm = {}
+        for p_ in ast.walk(gl.node):
+            for c in ast.iter_child_nodes(p_):
+                pm[c] = p_
+        for setter, key in (("sethost", "Host="), ("setport", "Port=")):
+            calls = [n for n in ast.walk(gl.node) if isinstance(n, ast.Call) and isinstance(n.func, ast.Attribute) and n.func.attr == setter]
+            problems = []
+            if not calls:
+                problems.append(f"{key} lines are not parsed")
+            for c in calls:
+                cur, plus_guard, key_guard = pm.get(c), False, False
+                child = c
+                while cur is not None and cur is not gl.node:
+                    if isinstance(cur, ast.If):
+                        in_body = any(child is b or any(child is x for x in ast.walk(b)) for b in cur.body)
+                        for t in ast.walk(cur.test):
+                            if isinstance(t, ast.Compare) and len(t.ops) == 1 and isinstance(t.comparators[0], ast.Constant):
+                                if t.comparators[0].value == "+" and ((isinstance(t.ops[0], ast.NotEq) and in_body) or (isinstance(t.ops[0], ast.Eq) and not in_body)):
+                                    plus_guard = True
+                                if t.comparators[0].value == key and isinstance(t.ops[0], ast.Eq) and in_body:
+                                    key_guard = True
+                            if isinstance(t, ast.Call) and isinstance(t.func, ast.Attribute) and t.func.attr == "startswith" and t.args \
+                                    and isinstance(t.args[0], ast.Constant) and t.args[0].value == key and in_body:
+                                key_guard = True
+                    child = cur
+                    cur = pm.get(cur)
+                if not plus_guard:
+                    problems.append(f"`{norm(c)[:40]}` also runs for {key}+ (the entry would point at a host/port literally called '+', not at this server)")
+                if not key_guard:
+                    problems.append(f"`{norm(c)[:40]}` is not tied to a {key} line")
+            rep.add("R08f", f"{gl.qualname}: {key}+ means this server", not problems, ctx.where(gl), "; ".join(problems), key=f"R08f|{setter}")
